@@ -51,6 +51,8 @@ def run(an: Analysis, rep):
     rep.rule("R09.2", "decoder rank rule mirrors the encoder's next-index rule; seeds agree", 3)
     rep.rule("R09.3", "additional args = exactly the never-met indices", 2)
     rep.rule("R09.4", "additional args collected for all tables, each wrapped in its table's class", 4)
+    from .common import purity
+    rep.run(purity, an, rep, "R09.P", ["from_code"])
     f, ifst, assign, mapattr, idx = find_rank_site(an)
     self_ = f.params[0]
     rank = assign.value
